@@ -509,6 +509,16 @@ fn main() {
                 rep.violations.extend(st.violations);
                 rep.add_part(st.part);
             }
+            {
+                // one lost packet around the close handshake while the acceptor (which shut down
+                // first, without reading) still has unread data
+                let mut d = vx_core::DfsConfig::new("fixed-latency-grid-close-with-unread-data", 0);
+                d.wall = wall;
+                let thorough = tier == Tier::Thorough;
+                let st = vx_core::explore_dfs(&d, move |ch| fixedlat::close_with_unread_scenario(ch, thorough));
+                rep.violations.extend(st.violations);
+                rep.add_part(st.part);
+            }
             rep.finish();
         }
         "C16" => {
@@ -758,6 +768,19 @@ fn replay(path: &str) {
                 for a in &v.actions {
                     println!("  {a}");
                 }
+                println!("VIOLATION clause={} : {}", v.clause, v.detail);
+                std::process::exit(1);
+            }
+            None => println!("no violation on this execution"),
+        }
+        return;
+    }
+    if prop == "C06" && scenario.starts_with("c06-close-with-unread") {
+        println!("replaying {prop}: {scenario}");
+        let mut ch = vx_core::Chooser::from_choices(&choices);
+        let e = fixedlat::close_with_unread_scenario(&mut ch, false);
+        match e.violation {
+            Some(v) => {
                 println!("VIOLATION clause={} : {}", v.clause, v.detail);
                 std::process::exit(1);
             }
